@@ -80,6 +80,10 @@ func (k msgServer) TransferOwnershipWithRatio(goCtx context.Context, msg *types.
 	coins := sdk.NewCoins()
 	for _, coin := range balances {
 		amt := coin.Amount.ToLegacyDec().Mul(msg.Ratio).TruncateInt()
+		// a share that rounds down to nothing is not part of the transfer
+		if !amt.IsPositive() {
+			continue
+		}
 		coins = append(coins, sdk.NewCoin(coin.Denom, amt))
 	}
 
